@@ -46,6 +46,7 @@ L2_ASSUME = [
     "L2: the real taskctl.Scheduler (Schedule/Cancel/isDone/checkStatus/runStage) and the real upstream ExecutionGraph/Stage run multi-threaded under the engine's scheduler; a context switch is possible before every atomic operation, go statement, channel operation and harness yield (mutex/WaitGroup operations switch only when they block), bounded by the preemption bound",
     "the task runner is the most general stub satisfying the runner contract G1 (begins, takes time, ends ok / failed / canceled once the cancel was delivered; refuses to run after the cancel)",
     "time.Sleep in the poll loop: the sleeper continues once anything changed since it last woke (idle-iteration elision); a sleeper that can never be woken is reported as livelock",
+    "a third L2 configuration makes the stage-change callback a switch point instead of the atomic operations (3 stages, preemption bound 1): the callback takes time in prunner (it takes the runner-wide mutex), which is the window in which a stage is visible as 'error' before it becomes 'done'",
     "graphs: up to `stages` stages, every dependency shape, every allow_failure vector, every outcome vector; modes: undisturbed, external Cancel at any switch point, fail-fast Cancel",
 ]
 
@@ -53,6 +54,7 @@ def l2(quick, thorough, qflags, tflags, reach=()):
     return {"pkg": T, "harness": ["harness/taskctl"], "entry": "VerifL2Schedule", "replay": "l2", "quick": quick, "thorough": thorough,
             "quick_flags": qflags, "thorough_flags": tflags, "reach": list(reach)}
 
+L2CB = l2({"stages": 3, "callbackyield": 1, "noatomicpreempt": 1}, {"stages": 3, "callbackyield": 1, "noatomicpreempt": 1}, {"preempt": 1}, {"preempt": 1}, reach=["schedule.nil", "dependent-skipped", "run.after-allowed-failure", "end"])
 L2RUN3 = l2({"stages": 3}, {"stages": 3}, {"preempt": 0}, {"preempt": 0}, reach=["schedule.nil", "schedule.canceled", "dependent-skipped", "end"])
 L2RUN = l2({"stages": 2}, {"stages": 3}, {"preempt": 2}, {"preempt": 1}, reach=["schedule.nil", "schedule.canceled", "run.canceled-in-flight", "run.refused-after-cancel", "run.after-allowed-failure", "dependent-skipped", "end"])
 
@@ -64,14 +66,14 @@ CHECKS = {
     "C01": {"prefixes": ["C01."], "assumptions": L3_ASSUME, "validate_samples": {"quick": 1, "thorough": 3},
             "runs": [bmc({"K": 4, "N": 4}, {"K": 5, "N": 4}, reach=["spawn.concurrent>1", "end"]), bmcB(reach=["end"])]},
     "C02": {"prefixes": ["C02."], "assumptions": L3_ASSUME + L2_ASSUME, "validate_samples": {"quick": 1, "thorough": 3},
-            "runs": [bmc({"K": 4, "N": 4}, {"K": 5, "N": 4}, reach=["end"]), L2RUN, L2RUN3,
+            "runs": [bmc({"K": 4, "N": 4}, {"K": 5, "N": 4}, reach=["end"]), L2RUN, L2RUN3, L2CB,
                      step("VerifC02Graph", {"tasks": 3}, {"tasks": 3}, reach=["cyclic", "acyclic", "fan-in"]),
                      step("VerifC02Graph", {"tasks": 4, "dagonly": 1, "permutemode": 1, "concretenames": 1}, {"tasks": 4, "dagonly": 1, "permutemode": 1, "concretenames": 1}, reach=["acyclic", "fan-in"]), SELFTEST]},
     "C03": {"prefixes": ["C03."], "assumptions": L3_ASSUME, "validate_samples": {"quick": 1, "thorough": 3},
             "runs": [bmc({"K": 4, "N": 4}, {"K": 5, "N": 4}, reach=["state.waiting", "cancel.waiting"]), bmcB(reach=["state.three-waiting"]),
                      bmc({"K": 4, "N": 3, "reloads": 1, "reservedvar": 0, "taskerr": 0}, {"K": 5, "N": 3, "reloads": 1, "taskerr": 0}, reach=["reload"])]},
     "C04": {"prefixes": ["C04."], "assumptions": L3_ASSUME + L2_ASSUME, "validate_samples": {"quick": 1, "thorough": 3},
-            "runs": [bmc({"K": 4, "N": 4}, {"K": 5, "N": 4}, reach=["cancel.waiting", "cancel.running", "cancel.already-canceled", "cancel.completed"]), L2RUN, L2RUN3, COMPOSITE]},
+            "runs": [bmc({"K": 4, "N": 4}, {"K": 5, "N": 4}, reach=["cancel.waiting", "cancel.running", "cancel.already-canceled", "cancel.completed"]), bmcB(reach=["cancel.already-canceled", "cancel.completed"]), L2RUN, L2RUN3, COMPOSITE]},
     "C05": {"prefixes": ["C05."], "assumptions": L3_ASSUME, "validate_samples": {"quick": 1, "thorough": 3},
             "runs": [bmc({"K": 4, "N": 4}, {"K": 5, "N": 4}, reach=["sched.start", "sched.append", "sched.replace", "sched.reject-full", "sched.reject-noqueue"]), bmcB(reach=["sched.replace"])]},
     "C06": {"prefixes": ["C06."], "assumptions": L3_ASSUME, "validate_samples": {"quick": 1, "thorough": 3},
@@ -116,7 +118,9 @@ CHECKS = {
                             "state: built through the public API (finished, running and waiting jobs, retention configured); one operation per path"],
             "runs": [step("VerifC13Locks", reach=["op-done"])]},
     "C08": {"prefixes": ["C08."], "assumptions": L3_ASSUME + L2_ASSUME, "validate_samples": {"quick": 1, "thorough": 2},
-            "runs": [L2RUN, L2RUN3, COMPOSITE, bmc({"K": 4, "N": 3, "reservedvar": 0}, {"K": 5, "N": 3, "reservedvar": 0}, reach=["taskerr.failfast"])]},
+            "runs": [L2RUN, L2RUN3, L2CB, COMPOSITE,
+                     {"pkg": T, "harness": ["harness/taskctl"], "entry": "VerifC08Execute", "quick": {}, "thorough": {}, "reach": ["success", "allowed-failure", "allowed-failure.status>128", "failure"], "flags": {"workers": 2}},
+                     bmc({"K": 4, "N": 3, "reservedvar": 0}, {"K": 5, "N": 3, "reservedvar": 0}, reach=["taskerr.failfast"])]},
     "C09": {"prefixes": ["C09."],
             "assumptions": ["file-system contract: CreateTemp/Write/Close/Rename/Open are atomic operations; Rename atomically replaces; a write may be short; every OS call may fail (symbolic fault schedule)",
                             "the JSON codec is a stub: Encode writes an opaque encoding of the snapshot in 1..chunks writes, Decode succeeds iff the file holds exactly one complete encoding",
